@@ -270,3 +270,80 @@ func LockClosures(c *core.Ctx, rule string, fns []*ssa.Function, floor int) {
 	}
 	c.Floor(rule, "literals sharing state under a local mutex", n, floor)
 }
+
+// PanicSafeLock (C20 R-PANICSAFE): a critical section that pulls from the source iterator releases the mutex on panic.
+//
+// By the iterator protocol Next on an exhausted iterator panics (R-NOFAB forbids fabricating a value instead), and the
+// source's functions are user code. A literal that holds the local mutex across such a call without a deferred Unlock
+// leaves the mutex locked when the call panics: every later call on either side blocks forever, so the other side no
+// longer delivers its sequence.
+func PanicSafeLock(c *core.Ctx, rule string, fns []*ssa.Function, floor int) {
+	c.Rule(rule, "in a function whose literals share state under a local sync.Mutex, every call that can run user code or panic by protocol (interface calls, HasNext/Next of a captured iterator) made while the mutex is held is covered by a deferred Unlock registered before it")
+	n := 0
+	for _, top := range fns {
+		if top.Parent() != nil || len(top.AnonFuncs) == 0 {
+			continue
+		}
+		var mu *ssa.Alloc
+		for _, b := range top.Blocks {
+			for _, ins := range b.Instrs {
+				if a, ok := ins.(*ssa.Alloc); ok && a.Heap {
+					if nt := namedOf(a.Type()); nt != nil && nt.Obj().Pkg() != nil && nt.Obj().Pkg().Path() == "sync" && (nt.Obj().Name() == "Mutex" || nt.Obj().Name() == "RWMutex") {
+						mu = a
+					}
+				}
+			}
+		}
+		if mu == nil {
+			continue
+		}
+		muKey := lockKey(mu)
+		var lits []*ssa.Function
+		for _, a := range top.AnonFuncs {
+			collectLiterals(a, &lits)
+		}
+		for _, l := range lits {
+			lf := analyzeLocks(l)
+			if lf.nLocks == 0 {
+				continue
+			}
+			name := fnName(l)
+			k := 0
+			for _, b := range l.Blocks {
+				for _, ins := range b.Instrs {
+					call, ok := ins.(*ssa.Call)
+					if !ok {
+						continue
+					}
+					if op, key := mutexOp(&call.Call); key != "" && op != "" {
+						continue
+					}
+					risky, what := false, ""
+					switch {
+					case call.Call.IsInvoke():
+						risky, what = true, "interface call "+call.Call.Method.Name()
+					case call.Call.StaticCallee() == nil:
+						// builtins and local helper closures: not user code
+					default:
+						sc := call.Call.StaticCallee()
+						if sc.Signature.Recv() != nil && cursorKind(sc.Signature.Recv().Type()) != "" {
+							risky, what = true, "cursor method "+sc.Name()+" (runs the source's closures; Next panics when exhausted)"
+						}
+					}
+					if !risky || !lf.held[ins][muKey] {
+						continue
+					}
+					k++
+					n++
+					key := name + "/call#" + itoa(k)
+					if lf.deferred[ins][muKey] {
+						c.Add(rule, key, instrPos(ins), core.Discharged, what+" under the mutex, deferred Unlock registered")
+					} else {
+						c.Add(rule, key, instrPos(ins), core.Violated, what+" is made while "+strings.TrimPrefix(muKey, "var:")+" is held and no deferred Unlock is registered: when it panics (Next on an exhausted source, a faulting user function) the mutex stays locked and every later call on either side blocks forever")
+					}
+				}
+			}
+		}
+	}
+	c.Floor(rule, "risky calls inside critical sections", n, floor)
+}
